@@ -1031,6 +1031,18 @@ func runC11(args []string) int {
 			rep.hist("real-reporter=" + d.Reporter)
 		}
 		_, h1, h2 := c11Hyps(stream, desc)
+		// J-loc (premise of C11_H2_from_job_invariants), measured: reports for the same file and line range come from
+		// entries that agree on symlink target, owner and rule identity
+		jloc := true
+		for i := range desc {
+			for j := range desc {
+				a, b := desc[i], desc[j]
+				if a.Path == b.Path && a.LFirst == b.LFirst && a.LLast == b.LLast && (a.Target != b.Target || a.Owner != b.Owner || a.Rule != b.Rule) {
+					jloc = false
+				}
+			}
+		}
+		rep.hist(fmt.Sprintf("real:J-loc=%v", jloc))
 		np := nperm
 		if !(h1 && h2) {
 			np = nperm * 4 // hypotheses fail on a real stream: search harder
